@@ -33,6 +33,13 @@ kinds
                     decorator or in a parameter default - directly, or through a function of the package that reads them
                     (`gpsdata = GPSData.zero()` as a default).  Every module (not only the codec ones): what the
                     interpreter saw at import is frozen into every later call (a clock patched after import sees nothing)
+  enum-member-state an Enum class binds an attribute of its members to a (possibly) mutable object in __init__ / __new__
+                    (`self._bits = int2ba(...)`): members are created once, when the module is imported, and are process-wide
+                    singletons - whatever a member keeps is shared by every later call
+  returns-shared    a function may hand back an object reached from a class attribute, a module global, the class itself
+                    or - in an Enum - an attribute of the member (`return self._bits`, `return cls.TABLE[k]`, also inside a
+                    returned tuple / list or through a plain alias): the caller holds library state, an in-place operation
+                    on the "result" changes what every later call sees
   returns-argument  a function may hand back one of its parameters itself (`return payload`, also inside a returned
                     tuple / list, through a plain alias or through another returns-argument function): the caller of
                     such a function holds the ARGUMENT, an in-place operation on the "result" lands in the caller's buffer.
@@ -201,7 +208,7 @@ class ModuleScan:
         self.tree = None  # parsed source (scan() hands it over; the scan never modifies it)
 
     def add(self, qual, kind, detail):
-        if kind in ("self-mutation", "ambient-read") and not self.codec:
+        if kind in ("self-mutation", "ambient-read", "returns-shared") and not self.codec:
             return
         self.items.add((self.rel, qual, kind, detail))
 
@@ -313,6 +320,7 @@ class ModuleScan:
         # the first parameter IS the class: `cls.X = …` is state of the class, shared by every later call
         is_classmethod = is_method and ("classmethod" in decos or fn.name in ("__init_subclass__", "__class_getitem__", "__new__"))
         is_setter = any(d.endswith(".setter") or d.endswith(".deleter") for d in decos)
+        in_enum = cls is not None and any((dotted(b) or "") in ENUM_BASES or (dotted(b) or "").endswith("Enum") or (dotted(b) or "").endswith("Flag") for b in cls.bases)
 
         # caches
         for d in decos:
@@ -584,6 +592,39 @@ class ModuleScan:
             if kind == "param-mutation" and origin in rebound:
                 extra = " [parameter is also rebound in the function]"
             self.add(q, kind, f"{origin}: " + "; ".join(sorted(ops)) + extra)
+
+        # ---- enum-member-state: what an Enum's __init__ / __new__ parks on the member (a process-wide singleton)
+        if in_enum and fn.name in ("__init__", "__new__", "__post_init__"):
+            for node in own_nodes:
+                tgts, val = [], None
+                if isinstance(node, ast.Assign):
+                    tgts, val = node.targets, node.value
+                elif isinstance(node, ast.AnnAssign) and node.value is not None:
+                    tgts, val = [node.target], node.value
+                k = value_kind(val) if val is not None else None
+                for tg in tgts:
+                    if k and isinstance(tg, ast.Attribute) and isinstance(tg.value, ast.Name) and tg.attr not in ("_value_", "_name_"):
+                        self.add(q, "enum-member-state", f"{tg.value.id}.{tg.attr}: {k}")
+            for node in own_nodes:
+                if isinstance(node, ast.Call) and isinstance(node.func, ast.Name) and node.func.id == "setattr" and len(node.args) >= 3 and value_kind(node.args[2]):
+                    self.add(q, "enum-member-state", f"setattr({short(node.args[0], 30)}, ..): {value_kind(node.args[2])}")
+
+        # ---- returns-shared: may the function hand back (an alias of) shared state?
+        for node in own_nodes:
+            if isinstance(node, (ast.Return, ast.Yield)) and node.value is not None:
+                v = node.value
+                for c in [v] + (list(v.elts) if isinstance(v, (ast.Tuple, ast.List)) else []):
+                    if isinstance(c, (ast.Constant, ast.Tuple, ast.List, ast.JoinedStr, ast.Compare, ast.BinOp, ast.UnaryOp)):
+                        continue
+                    t = expr_taint(c)
+                    if t is None:
+                        continue
+                    if t[0] == SHARED:
+                        if in_enum and "." not in t[1] and "[" not in t[1]:
+                            continue  # `for m in cls: return m`: a member of the Enum itself (that is what an Enum hands out)
+                        self.add(q, "returns-shared", t[1])
+                    elif t[0] == SELF and in_enum and "." in t[1]:
+                        self.add(q, "returns-shared", f"{t[1]} [state of an Enum member]")
 
         # ---- returns-argument: may the function hand back one of its parameters itself?
         alias = {p: p for p in free_params if p not in truly_scalar}
